@@ -668,7 +668,9 @@ Definition end_block (p : params) (h : Z) (updates : list (Z * Z)) (st : state) 
               mkMem vals (zsum (map snd vals)) (m_rounds m0) (m_workers m0)
             else m0 in
   let '(m2, failed, sealed) := seal_round p h force m1 in
-  let n1 := fold_left (fun n fid => remove_nonce n fid (val_ids m2)) sealed (s_nonces (st_store st)) in
+  (* RemoveNonceWithFeederIDForAll: the rows of a sealed feeder are removed for every validator that has a row,
+     also for validators that this block's update has just removed from the set *)
+  let n1 := fold_left (fun n fid => remove_nonce n fid (map fst n)) sealed (s_nonces (st_store st)) in
   let s1 := fold_left (fun s tok => grow_round p s tok) failed (mkStore (s_prices (st_store st)) n1) in
   let '(m3, fresh) := prepare_round p h m2 in
   let n2 := fold_left (fun n fid => add_zero_nonce n fid (val_ids m3)) fresh (s_nonces s1) in
@@ -865,9 +867,14 @@ Definition tokens_of (a b : store) : list Z := map fst (s_prices a) ++ map fst (
 (* [trusted fid base]: the monitor's log of counted submissions is complete for that round (the round was opened
    inside the case, or the case started without a worker for the feeder); cases of suite abci are consecutive cuts of
    one chain and may start in the middle of a round *)
-Definition c12_tx_ok (p : params) (trusted : Z -> Z -> bool) (log : list sub) (before after : state) (t : tx) (o : txobs) : bool :=
-  let vals := m_vals (st_mem before) in
-  let total := m_total (st_mem before) in
+(* the validator set as the PROPERTY defines it: the set the case started with, changed by the validator-set updates
+   of the blocks (power 0 = removed). The monitors weigh reports with it, not with the powers found in memory. *)
+Definition spec_update (vals : list (Z * Z)) (u : Z * Z) : list (Z * Z) :=
+  if snd u =? 0 then zdel vals (fst u) else zset vals (fst u) (snd u).
+Definition spec_vals (vals : list (Z * Z)) (updates : list (Z * Z)) : list (Z * Z) := fold_left spec_update updates vals.
+
+Definition c12_tx_ok (p : params) (vals : list (Z * Z)) (trusted : Z -> Z -> bool) (log : list sub) (before after : state) (t : tx) (o : txobs) : bool :=
+  let total := zsum (map snd vals) in
   forallb (fun tok =>
     match token_step p (get_tp (st_store before) tok) (get_tp (st_store after) tok) with
     | None => false
@@ -930,9 +937,27 @@ Definition nogap_pre (p : params) (f : feeder) (b : Z) (st : state) : bool :=
 Definition distinct_tokens (p : params) : bool :=
   forallb (fun f => Z.of_nat (List.length (filter (fun g => f_token g =? f_token f) (p_feeders p))) =? 1) (p_feeders p).
 
-(* [tracked]: the feeders whose store and memory agreed (nogap_pre) in the initial state of the case; for those
-   the round-numbering statement must hold after every EndBlock, whatever happened in between *)
-Definition c12_end_ok (p : params) (tracked : list Z) (h : Z) (updates : list (Z * Z)) (before after : state) : bool :=
+(* the feeder that is responsible for a token at block b: the latest started one (Params.Validate lets a new feeder
+   continue a token after the previous feeder's end block, with the round ids continuing); before any has started,
+   the one that starts first *)
+Definition current_feeder (p : params) (tok b : Z) : option feeder :=
+  let fs := filter (fun f => f_token f =? tok) (p_feeders p) in
+  let started := filter (fun f => f_start f <=? b) fs in
+  match started with
+  | f0 :: r => Some (fold_left (fun a f => if f_start a <? f_start f then f else a) r f0)
+  | [] => match fs with
+          | f0 :: r => Some (fold_left (fun a f => if f_start f <? f_start a then f else a) r f0)
+          | [] => None
+          end
+  end.
+
+Definition feeder_tokens (p : params) : list Z :=
+  fold_left (fun acc f => if mem_z (f_token f) acc then acc else acc ++ [f_token f]) (p_feeders p) [].
+
+(* [tracked]: the tokens for which store and memory agreed (nogap_pre of the responsible feeder) in the initial state
+   of the case; for those the round-numbering statement must hold after every EndBlock, whatever happened in between.
+   [vals']: the validator set after this block's update, as the property defines it. *)
+Definition c12_end_ok (p : params) (tracked : list Z) (vals' : list (Z * Z)) (h : Z) (updates : list (Z * Z)) (before after : state) : bool :=
   let forced := match updates with [] => false | _ => true end in
   (* every token: nothing, or one carried-forward round *)
   forallb (fun tok =>
@@ -942,15 +967,15 @@ Definition c12_end_ok (p : params) (tracked : list Z) (h : Z) (updates : list (Z
     | Some None => true
     | Some (Some x) => ptr_eqb x (carry_of (latest_price tb) (next_round_id tb))
     end) (tokens_of (st_store before) (st_store after)) &&
-  (* round numbering: one round per interval, closed exactly once *)
-  (* (the statement is evaluated for invalid params as well: params that violate Params.Validate can be stored
-     through the token-registration path, and then it fails - directed scenario kf-C12-unvalidated-interval) *)
-  (if distinct_tokens p then
-     forallb (fun f =>
-       if mem_z (f_id f) tracked
-       then nogap_state p f h (next_round_id (get_tp (st_store after) (f_token f))) forced
-       else true) (p_feeders p)
-   else true).
+  (* a validator-set change replaces the weights: exactly the new set, total = their sum *)
+  (if forced then list_eqb zz_eqb (m_vals (st_mem after)) vals' && (m_total (st_mem after) =? zsum (map snd vals')) else true) &&
+  (* round numbering: one round per interval, closed exactly once.
+     (the statement is evaluated for invalid params as well, should such params ever get stored) *)
+  forallb (fun tok =>
+     match current_feeder p tok h with
+     | Some f => nogap_state p f h (next_round_id (get_tp (st_store after) tok)) forced
+     | None => true
+     end) tracked.
 
 (* --- C13, step over a transaction --- *)
 Fixpoint count_prior (l : list msg) (creator fid : Z) : Z :=
@@ -963,11 +988,11 @@ Fixpoint row_value (row : list (Z * Z)) (fid : Z) : option Z :=
   match row with [] => None | (f, v) :: r => if f =? fid then Some v else row_value r fid end.
 
 (* the admission statement, clause by clause, on the observed state before the tx *)
-Fixpoint admit_msgs_ok (p : params) (before : state) (done todo : list msg) : bool :=
+Fixpoint admit_msgs_ok (p : params) (vals : list (Z * Z)) (before : state) (done todo : list msg) : bool :=
   match todo with
   | [] => true
   | x :: r =>
-      (match zget (m_vals (st_mem before)) (m_creator x) with Some _ => true | None => false end) &&
+      (match zget vals (m_creator x) with Some _ => true | None => false end) &&
       (match zget (m_rounds (st_mem before)) (m_feeder x) with Some rd => r_status rd =? 1 | None => false end) &&
       (match get_feeder p (m_feeder x) with Some _ => true | None => false end) &&
       (match zget (s_nonces (st_store before)) (m_creator x) with
@@ -978,11 +1003,11 @@ Fixpoint admit_msgs_ok (p : params) (before : state) (done todo : list msg) : bo
                      end
        | None => false
        end) &&
-      admit_msgs_ok p before (done ++ [x]) r
+      admit_msgs_ok p vals before (done ++ [x]) r
   end.
 
-Definition admit_ok (p : params) (before : state) (t : tx) : bool :=
-  (t_size t <=? tx_size_limit) && t_pk_ok t && t_sig_ok t && admit_msgs_ok p before [] (t_msgs t).
+Definition admit_ok (p : params) (vals : list (Z * Z)) (before : state) (t : tx) : bool :=
+  (t_size t <=? tx_size_limit) && t_pk_ok t && t_sig_ok t && admit_msgs_ok p vals before [] (t_msgs t).
 
 (* the counting statement for one message *)
 Definition count_msg_ok (p : params) (now : Z) (log : list sub) (before : state) (x : msg) : bool :=
@@ -1043,30 +1068,31 @@ Fixpoint count_msgs_ok (p : params) (now : Z) (log : list sub) (before : state) 
   | x :: r => count_msg_ok p now log before x && count_msgs_ok p now (log ++ subs_of_msg x) before r
   end.
 
-Definition c13_tx_ok (p : params) (now : Z) (log : list sub) (adm : list (Z * Z * Z))
+Definition c13_tx_ok (p : params) (vals : list (Z * Z)) (now : Z) (log : list sub) (adm : list (Z * Z * Z))
            (before after : state) (t : tx) (o : txobs) : bool :=
   if negb (o_admitted o) then
     (* not admitted: nothing changes at all (store and memory), and it cannot have succeeded *)
     negb (o_ok o) && (match o_after o with None => true | Some _ => false end)
   else
-    admit_ok p before t &&
+    admit_ok p vals before t &&
     forallb (fun k => adm_count (adm ++ adm_of_tx before t) k <=? p_max_nonce p) (adm_of_tx before t) &&
     (if o_ok o then count_msgs_ok p now log before (t_msgs t)
      else only_nonce_of (map m_creator (t_msgs t)) before after).
 
 (* CheckTx: admitted to the mempool only under the same admission statement, evaluated on the committed state
    plus the messages CheckTx admitted earlier in this block *)
-Definition c13_check_ok (p : params) (blk : state) (chk : list msg) (t : tx) (o : txobs) : bool :=
+Definition c13_check_ok (p : params) (vals : list (Z * Z)) (blk : state) (chk : list msg) (t : tx) (o : txobs) : bool :=
   match o_check o with
   | Some true =>
-      (t_size t <=? tx_size_limit) && t_pk_ok t && t_sig_ok t && admit_msgs_ok p blk chk (t_msgs t)
+      (t_size t <=? tx_size_limit) && t_pk_ok t && t_sig_ok t && admit_msgs_ok p vals blk chk (t_msgs t)
   | _ => true
   end.
 
 (* --- running the monitors over a case --- *)
 (* mn_blk: observed state at the start of the current block (= committed state); mn_chk: messages of the txs of
    this block that CheckTx admitted so far *)
-Record mon := mkMon { mn_st : state; mn_log : list sub; mn_adm : list (Z * Z * Z); mn_blk : state; mn_chk : list msg }.
+(* mn_vals: the validator set as defined by the case's initial set and the updates so far *)
+Record mon := mkMon { mn_st : state; mn_log : list sub; mn_adm : list (Z * Z * Z); mn_blk : state; mn_chk : list msg; mn_vals : list (Z * Z) }.
 
 Fixpoint mon_txs (f : mon -> Z -> state -> tx -> txobs -> bool) (now : Z) (m : mon) (l : list (tx * txobs)) (i : nat)
   : mon * option nat :=
@@ -1078,12 +1104,12 @@ Fixpoint mon_txs (f : mon -> Z -> state -> tx -> txobs -> bool) (now : Z) (m : m
         let log' := if o_admitted o && o_ok o then mn_log m ++ subs_of_tx t else mn_log m in
         let adm' := if o_admitted o then mn_adm m ++ adm_of_tx (mn_st m) t else mn_adm m in
         let chk' := match o_check o with Some true => mn_chk m ++ t_msgs t | _ => mn_chk m end in
-        mon_txs f now (mkMon after log' adm' (mn_blk m) chk') r (S i)
+        mon_txs f now (mkMon after log' adm' (mn_blk m) chk' (mn_vals m)) r (S i)
       else (m, Some i)
   end.
 
 Fixpoint mon_blocks (ftx : mon -> Z -> state -> tx -> txobs -> bool)
-         (fend : Z -> list (Z * Z) -> state -> state -> bool) (m : mon) (bs : list block) (i : nat) : option nat :=
+         (fend : list (Z * Z) -> Z -> list (Z * Z) -> state -> state -> bool) (m : mon) (bs : list block) (i : nat) : option nat :=
   match bs with
   | [] => None
   | b :: r =>
@@ -1091,17 +1117,23 @@ Fixpoint mon_blocks (ftx : mon -> Z -> state -> tx -> txobs -> bool)
       | (_, Some j) => Some j
       | (m1, None) =>
           let after := apply_obs (mn_st m1) (b_after b) in
-          if fend (b_height b) (b_updates b) (mn_st m1) after
-          then mon_blocks ftx fend (mkMon after (mn_log m1) (mn_adm m1) after []) r (S i)
+          let vals' := spec_vals (mn_vals m1) (b_updates b) in
+          if fend vals' (b_height b) (b_updates b) (mn_st m1) after
+          then mon_blocks ftx fend (mkMon after (mn_log m1) (mn_adm m1) after [] vals') r (S i)
           else Some (1000 * i + 999)%nat
       end
   end.
 
-Definition tracked_feeders (c : case) : list Z :=
+Definition tracked_tokens (c : case) : list Z :=
   match c_blocks c with
   | [] => []
-  | b :: _ => map f_id (filter (fun f => nogap_pre (c_params c) f (b_height b - 1) (c_init c)) (p_feeders (c_params c)))
+  | b :: _ => filter (fun tok => match current_feeder (c_params c) tok (b_height b - 1) with
+                                 | Some f => nogap_pre (c_params c) f (b_height b - 1) (c_init c)
+                                 | None => false
+                                 end) (feeder_tokens (c_params c))
   end.
+
+Definition mon_init (c : case) : mon := mkMon (c_init c) [] [] (c_init c) [] (m_vals (st_mem (c_init c))).
 
 Definition monitor_c12 (c : case) : option nat :=
   let p := c_params c in
@@ -1109,14 +1141,14 @@ Definition monitor_c12 (c : case) : option nat :=
   let trusted := fun fid base =>
     (h_first <=? base) || match zget (m_workers (st_mem (c_init c))) fid with None => true | Some _ => false end in
   mon_blocks (fun m now after t o =>
-                c12_tx_ok p trusted (if o_admitted o && o_ok o then mn_log m ++ subs_of_tx t else mn_log m) (mn_st m) after t o)
-             (c12_end_ok p (tracked_feeders c)) (mkMon (c_init c) [] [] (c_init c) []) (c_blocks c) 0.
+                c12_tx_ok p (mn_vals m) trusted (if o_admitted o && o_ok o then mn_log m ++ subs_of_tx t else mn_log m) (mn_st m) after t o)
+             (c12_end_ok p (tracked_tokens c)) (mon_init c) (c_blocks c) 0.
 
 Definition monitor_c13 (c : case) : option nat :=
   let p := c_params c in
-  mon_blocks (fun m now after t o => c13_tx_ok p now (mn_log m) (mn_adm m) (mn_st m) after t o &&
-                                     c13_check_ok p (mn_blk m) (mn_chk m) t o)
-             (fun _ _ _ _ => true) (mkMon (c_init c) [] [] (c_init c) []) (c_blocks c) 0.
+  mon_blocks (fun m now after t o => c13_tx_ok p (mn_vals m) now (mn_log m) (mn_adm m) (mn_st m) after t o &&
+                                     c13_check_ok p (mn_vals m) (mn_blk m) (mn_chk m) t o)
+             (fun _ _ _ _ _ => true) (mon_init c) (c_blocks c) 0.
 
 (* ================= kernel cases: the pure functions BigIntList.Median and ExceedsThreshold =================
    The oracle suite reaches Median only with equal per-validator values (single deterministic source), so the two
